@@ -40,7 +40,43 @@ func Add(A, B tensor.Tensor) (tensor.Tensor, error) {
 
 // Div divides 1 tensor by the other.
 func Div(A, B tensor.Tensor) (tensor.Tensor, error) {
-	return tensor.Div(A, B)
+	out, err := tensor.Div(A, B)
+	if err != nil {
+		return nil, err
+	}
+
+	// The tensor library stores +Inf for every floating point division by zero. IEEE-754
+	// prescribes an infinity with the sign of the operands, and NaN for 0/0 and NaN/0.
+	// The correction below walks the backings, which is only valid for contiguous tensors.
+	if A.RequiresIterator() || B.RequiresIterator() || out.RequiresIterator() {
+		return out, nil
+	}
+
+	switch divisor := IfScalarToSlice(B.Data()).(type) {
+	case []float32:
+		fixDivisionByZero(IfScalarToSlice(out.Data()), IfScalarToSlice(A.Data()), divisor)
+	case []float64:
+		fixDivisionByZero(IfScalarToSlice(out.Data()), IfScalarToSlice(A.Data()), divisor)
+	}
+
+	return out, nil
+}
+
+// fixDivisionByZero recomputes the elements of quotient whose divisor is zero. The operands
+// of Div have the same shape, so their backings are aligned.
+func fixDivisionByZero[T FloatType](quotient, dividend any, divisor []T) {
+	q, okQ := quotient.([]T)
+	a, okA := dividend.([]T)
+
+	if !okQ || !okA || len(q) != len(divisor) || len(a) != len(divisor) {
+		return
+	}
+
+	for i, d := range divisor {
+		if d == 0 {
+			q[i] = a[i] / d
+		}
+	}
 }
 
 // Mul multiplies 2 tensors with each other.
